@@ -87,6 +87,7 @@ class LBCheck(BaseCheck):
       # debug logging through a handler that yields: every log call in the balancer is a point
       # where the notifier, timers and other greenlets run
       env.yielding_logs()
+      env.log_yield_ok = w.lock_free
       classes.add('yielding-log-handler')
     for ep in rng.sample(pool, n0):
       ss.truth[ep] = __import__('vlib.lbworld', fromlist=['Member']).Member(ep)
